@@ -102,6 +102,12 @@ func init() {
 			}
 			return m.mkInt(int64(v))
 		},
+		vpkg + "ParamOr": func(m *Machine, _ *frame, _ *ssa.Function, a []Value) Value {
+			if v, ok := m.Params[m.concStr(a[0], "param name")]; ok {
+				return m.mkInt(int64(v))
+			}
+			return a[1]
+		},
 		vpkg + "IteInt64":  iteIntr,
 		vpkg + "IteInt":    iteIntr,
 		vpkg + "IteUint64": iteIntr,
